@@ -85,16 +85,19 @@ impl<const N: usize> NodeVersions<N> {
 
     /// Attempts to update the latest observed timestamp for a given source.
     fn try_update_max_stamp(&mut self, source: usize, ts: HLCTimestamp) -> bool {
+        // The event is older than the safe cut off, we must assume we have
+        // already observed (and potentially purged) it.
+        if self.is_ts_before_last_observed_event(ts) {
+            return false;
+        }
+
         match self.nodes_max_stamps[source].entry(ts.node()) {
             Entry::Occupied(mut entry) => {
-                // We have already observed these events at some point from this node.
-                // This means we can no longer trust that this key is in fact still valid.
-                if &ts < entry.get() {
-                    self.compute_safe_last_stamp(ts.node());
-                    return false;
+                // Events from the same node can arrive out of order within the
+                // forgiveness period, only ever move the latest observed stamp forward.
+                if entry.get() < &ts {
+                    entry.insert(ts);
                 }
-
-                entry.insert(ts);
             },
             Entry::Vacant(v) => {
                 v.insert(ts);
